@@ -46,6 +46,9 @@ type Opts struct {
 	// WatchDir / WatchFile are an existing directory and regular file for watch rules.
 	WatchDir, WatchFile string
 	MaxFilters          int
+	// KeyVariants puts blanks, tabs, quotes, backslashes, '=' or non-ASCII letters inside some keys
+	// (outside C07's domain: ToCommandLine does not quote).
+	KeyVariants bool
 }
 
 func randSafe(r *mon.Rand, n int) string {
@@ -54,6 +57,16 @@ func randSafe(r *mon.Rand, n int) string {
 		b[i] = safeChars[r.Intn(len(safeChars))]
 	}
 	return string(b)
+}
+
+// keyVariant sometimes puts blanks, tabs or non-ASCII letters INSIDE a key (a key is an arbitrary
+// string; only blanks around a list item are trimmed by the flag parser, and commas separate keys).
+func keyVariant(r *mon.Rand, k string) string {
+	if len(k) < 3 || len(k) > 200 || !r.Chance(1, 5) {
+		return k
+	}
+	i := r.Range(1, len(k)-1)
+	return k[:i] + mon.Pick(r, []string{" ", "  ", "\t", " \t ", "é", "=", "'", "\"", "\\"}) + k[i:]
 }
 
 func randString(r *mon.Rand, o *Opts, maxLen int) string {
@@ -334,7 +347,11 @@ func Random(r *mon.Rand, o *Opts) *Spec {
 			s.Perms = string(letters[:r.Range(1, 4)])
 		}
 		for i, n := 0, r.Intn(3); i < n; i++ {
-			s.Keys = append(s.Keys, randSafe(r, r.Range(1, 20)))
+			k := randSafe(r, r.Range(1, 20))
+			if o.KeyVariants {
+				k = keyVariant(r, k)
+			}
+			s.Keys = append(s.Keys, k)
 		}
 		return s
 	}
@@ -399,6 +416,8 @@ func Random(r *mon.Rand, o *Opts) *Spec {
 			k := randSafe(r, r.Range(1, 30))
 			if r.Chance(1, 20) && total < 250 {
 				k = randSafe(r, 256-total-1)
+			} else if o.KeyVariants {
+				k = keyVariant(r, k)
 			}
 			if total+len(k)+1 > 256 || len(k) == 0 {
 				break
